@@ -254,7 +254,14 @@ Model(src) ==
 \* ------------------------------------------------------------------ generator (Blocks.tla's: sequences of line shapes) and Emit
 Init == B!Init
 Next == B!Next
-Emit == doc # <<>> => PrintT(ToJson(Model(B!Flatten(doc))))
+\* NUL: "for security reasons the Unicode character U+0000 must be replaced with the REPLACEMENT CHARACTER" (section 2.3) - before anything
+\* else is decided. The model of a document with NUL bytes is the model of the replaced text; its positions are positions in that text
+\* (which is what a root block's Source holds), the record keeps the original bytes for the replay.
+RECURSIVE ReplaceNUL(_)
+ReplaceNUL(x) == IF x = <<>> THEN <<>> ELSE (IF Head(x) = 0 THEN <<239, 191, 189>> ELSE <<Head(x)>>) \o ReplaceNUL(Tail(x))
+HasNUL(x) == \E i \in 1..Len(x) : x[i] = 0
+ModelOf(x) == IF HasNUL(x) THEN [Model(ReplaceNUL(x)) EXCEPT !.src = x] ELSE Model(x)
+Emit == doc # <<>> => PrintT(ToJson(ModelOf(B!Flatten(doc))))
 \* ------------------------------------------------------------------ model-level lemmas on the composed pipeline (checked by TLC on every generated document)
 RECURSIVE ConcatAll(_)
 ConcatAll(ss) == IF ss = <<>> THEN <<>> ELSE Head(ss) \o ConcatAll(Tail(ss))
